@@ -180,13 +180,13 @@ theorem nodeBirth_frame (decs : List Dec) (ty : BirthTy) (sl : Option Nat) (st :
     let r := nodeBirth decs ty sl st
     r.st.devs = st.devs ∧ r.st.alias = st.alias ∧ r.st.online = st.online ∧ r.st.bdSeq = st.bdSeq ∧
     r.st.wall = st.wall ∧ r.st.cooldown = st.cooldown ∧ r.st.dead = st.dead ∧ r.st.last = st.last ∧
-    r.st.queue = st.queue ∧ r.st.seq = 0 := by
+    r.st.queue = st.queue ∧ r.st.seq = 0 ∧ r.st.epoch = (st.epoch + 1) % 18446744073709551616 := by
   unfold nodeBirth; split <;> simp
 
 theorem nodeBirth_accept (decs : List Dec) (ty : BirthTy) (sl : Option Nat) (st : St)
     (h : decs.head?.getD .accept = .accept) :
     let r := nodeBirth decs ty sl st
-    r.bc = [.birth ty] ∧ r.st.birthed = true ∧ r.st.parked = st.parked := by
+    r.bc = [.birth ty r.st.epoch] ∧ r.st.birthed = true ∧ r.st.parked = st.parked := by
   unfold nodeBirth; rw [h]; simp
 
 theorem nodeBirth_reject (decs : List Dec) (ty : BirthTy) (sl : Option Nat) (st : St)
@@ -270,31 +270,31 @@ theorem onNodeMessage_honoured (decs : List Dec) (kind : MsgKind) (p : Payload) 
 
 /-! ### the device tasks -/
 
-theorem devPhase_nil (alias : Option Nat → Bytes → Nat) (o b : Bool) (seq : Nat) (devs : List Dev) :
-    devPhase alias o b [] seq devs = (seq, devs, []) := by
+theorem devPhase_nil (alias : Option Nat → Bytes → Nat) (o b : Bool) (cur seq : Nat) (devs : List Dev) :
+    devPhase alias o b cur [] seq devs = (seq, devs, []) := by
   induction devs generalizing seq with
   | nil => rfl
   | cons d ds ih => simp [devPhase, devRun, ih]
 
-theorem devRun_rebirth (alias : Bytes → Nat) (seq : Nat) (d : Dev) :
-    (devRun alias true true seq d [.birth .rebirth]).1 = (if d.enabled then (seq + 1) % 256 else seq) ∧
-    (devRun alias true true seq d [.birth .rebirth]).2.2 =
+theorem devRun_rebirth (alias : Bytes → Nat) (cur seq : Nat) (d : Dev) :
+    (devRun alias true true cur seq d [.birth .rebirth cur]).1 = (if d.enabled then (seq + 1) % 256 else seq) ∧
+    (devRun alias true true cur seq d [.birth .rebirth cur]).2.2 =
       (if d.enabled then [.dbirth d.name ((seq + 1) % 256)] else []) ∧
-    (devRun alias true true seq d [.birth .rebirth]).2.1.name = d.name ∧
-    (devRun alias true true seq d [.birth .rebirth]).2.1.enabled = d.enabled := by
+    (devRun alias true true cur seq d [.birth .rebirth cur]).2.1.name = d.name ∧
+    (devRun alias true true cur seq d [.birth .rebirth cur]).2.1.enabled = d.enabled := by
   cases he : d.enabled <;>
     simp [devRun, devHandle, devBirth, getNextSeq, he]
 
 /-- a rebirth broadcast on a birthed node: one DBIRTH per enabled device, in the order of the
 device tasks, numbered consecutively -/
-theorem devPhase_rebirth (alias : Option Nat → Bytes → Nat) (seq k : Nat) (devs : List Dev)
+theorem devPhase_rebirth (alias : Option Nat → Bytes → Nat) (cur seq k : Nat) (devs : List Dev)
     (h : seq % 256 = k % 256) :
-    (devPhase alias true true [.birth .rebirth] seq devs).2.2 =
+    (devPhase alias true true cur [.birth .rebirth cur] seq devs).2.2 =
       ((devs.filter (·.enabled)).zipIdx k).map fun p => Eff.dbirth p.1.name ((p.2 + 1) % 256) := by
   induction devs generalizing seq k with
   | nil => rfl
   | cons d ds ih =>
-    have hr := devRun_rebirth (alias (some d.name)) seq d
+    have hr := devRun_rebirth (alias (some d.name)) cur seq d
     simp only [devPhase]
     rw [hr.2.1]
     cases he : d.enabled with
@@ -308,13 +308,13 @@ theorem devPhase_rebirth (alias : Option Nat → Bytes → Nat) (seq k : Nat) (d
       congr 2
       omega
 
-theorem devPhase_names (alias : Option Nat → Bytes → Nat) (o b : Bool) (bc : List DevMsg) (seq : Nat)
-    (devs : List Dev) :
-    (devPhase alias o b bc seq devs).2.1.map (·.name) = devs.map (·.name) := by
-  have hh : ∀ (al : Bytes → Nat) (s : Nat) (d : Dev) (m : DevMsg), (devHandle al o b s d m).2.1.name = d.name := by
+theorem devPhase_names (alias : Option Nat → Bytes → Nat) (o b : Bool) (cur : Nat) (bc : List DevMsg)
+    (seq : Nat) (devs : List Dev) :
+    (devPhase alias o b cur bc seq devs).2.1.map (·.name) = devs.map (·.name) := by
+  have hh : ∀ (al : Bytes → Nat) (s : Nat) (d : Dev) (m : DevMsg), (devHandle al o b cur s d m).2.1.name = d.name := by
     intro al s d m
     cases m <;> simp only [devHandle, devBirth, devDeath] <;> (repeat' split) <;> simp
-  have hr : ∀ (al : Bytes → Nat) (l : List DevMsg) (s : Nat) (d : Dev), (devRun al o b s d l).2.1.name = d.name := by
+  have hr : ∀ (al : Bytes → Nat) (l : List DevMsg) (s : Nat) (d : Dev), (devRun al o b cur s d l).2.1.name = d.name := by
     intro al l
     induction l with
     | nil => intro s d; rfl
@@ -358,7 +358,7 @@ theorem step_ncmd_effs (decs : List Dec) (kind : MsgKind) (p : Payload) (st : St
     cases hdec : decs.head?.getD .accept with
     | accept =>
       simp only [nodeBirth, hdec, hp, Option.isSome_none, Bool.false_eq_true, if_false, if_true, ho]
-      rw [devPhase_rebirth st.alias 0 0 st.devs rfl]
+      rw [devPhase_rebirth st.alias _ 0 0 st.devs rfl]
       simp [dbirthSeq]
     | reject =>
       simp only [nodeBirth, hdec, hp, Option.isSome_none, Bool.false_eq_true, if_false, devPhase_nil]
@@ -406,9 +406,9 @@ theorem devCmd_eq (d : Dev) (kind : MsgKind) (p : Payload) :
   · cases hts : p.ts <;> simp [hk]
   · simp [hk]
 
-theorem devOne_cmd (alias : Option Nat → Bytes → Nat) (o b : Bool) (name : Nat) (kind : MsgKind)
+theorem devOne_cmd (alias : Option Nat → Bytes → Nat) (o b : Bool) (cur : Nat) (name : Nat) (kind : MsgKind)
     (p : Payload) (seq : Nat) (devs : List Dev) :
-    devOne alias o b name (.cmd kind p) seq devs =
+    devOne alias o b cur name (.cmd kind p) seq devs =
       (seq, devs, match devs.find? (fun d => d.name == name) with
         | some d => cmdEffs (some name) d.mgr kind p
         | none => []) := by
@@ -650,5 +650,68 @@ theorem mem_lookup_initialiseBirth (alias : Bytes → Nat) (g : Mgr) (id : Metri
 
 theorem register_lookup (g : Mgr) (m : SMetric) : (g.register m).lookup = g.lookup := by
   unfold Mgr.register; split <;> rfl
+
+/-! ### superseded birth notifications -/
+
+/-- a birth notification of a node birth that is no longer the current one is skipped -/
+theorem devHandle_stale (alias : Bytes → Nat) (o b : Bool) (cur seq : Nat) (d : Dev) (ty : BirthTy)
+    (e : Nat) (h : e ≠ cur) : devHandle alias o b cur seq d (.birth ty e) = (seq, d, []) := by
+  simp only [devHandle, devBirth, getNextSeq]
+  split
+  · rfl
+  · split
+    · rfl
+    · split <;> simp_all
+
+theorem devPhase_stale (alias : Option Nat → Bytes → Nat) (o b : Bool) (cur : Nat) (ty : BirthTy)
+    (e : Nat) (h : e ≠ cur) (bc : List DevMsg) (seq : Nat) (devs : List Dev) :
+    devPhase alias o b cur (.birth ty e :: bc) seq devs = devPhase alias o b cur bc seq devs := by
+  induction devs generalizing seq with
+  | nil => rfl
+  | cons d ds ih =>
+    simp only [devPhase, devRun, devHandle_stale _ o b cur seq d ty e h, List.nil_append]
+    rw [ih]
+
+theorem epoch_succ_ne (e : Nat) : e ≠ (e + 1) % 18446744073709551616 := by omega
+
+theorem resolveParked_eq (decs : List Dec) (ok : Bool) (st : St) (pk : Parked)
+    (hpk : st.parked = some pk) :
+    resolveParked decs ok st =
+      { (nodeRun decs (st.resumed pk ok) st.queue) with
+        bc := (if ok then [DevMsg.birth pk.ty st.epoch] else []) ++
+          (nodeRun decs (st.resumed pk ok) st.queue).bc } := by
+  unfold resolveParked
+  rw [hpk]
+  cases hs : pk.setLast <;> simp [St.resumed, hs]
+
+/-- the scenario of a rebirth command queued behind a parked node birth -/
+theorem resolve_then_rebirth (decs : List Dec) (st : St) (pk : Parked) (kind : MsgKind) (p : Payload)
+    (hg : st.Good) (hpk : st.parked = some pk) (hq : st.queue = [.msg kind p])
+    (hacc : decs.head?.getD .accept = .accept)
+    (hh : Honoured (st.resumed pk true) kind p) :
+    (step decs st (.resolve true)).2 =
+      cmdEffs none st.nodeMgr kind p ++ (.nbirth 0 st.bdSeq :: dbirthSeq st.devs) := by
+  obtain ⟨⟨i1, i2⟩, hd, hl, hp⟩ := hg
+  have hon : st.online = true := (i2 (by simp [hpk])).2
+  have hb := (honouredB_iff _ kind p).mpr hh
+  have hl2 : (st.resumed pk true).last ≤ (st.resumed pk true).wall := by
+    simp only [St.resumed]
+    cases hs : pk.setLast with
+    | none => simpa using hl
+    | some now => simpa using hp pk now hpk hs
+  have key : (finish { (nodeRun decs (st.resumed pk true) [.msg kind p]) with
+        bc := [DevMsg.birth pk.ty st.epoch] ++ (nodeRun decs (st.resumed pk true) [.msg kind p]).bc }).2 =
+      cmdEffs none st.nodeMgr kind p ++ (.nbirth 0 st.bdSeq :: dbirthSeq st.devs) := by
+    rw [nodeRun_single _ _ _ (by simpa [St.resumed] using hd) (by simp [St.resumed])]
+    simp only [nodeHandle, finish]
+    rw [onNodeMessage_honoured decs kind p _ hl2 hb]
+    simp only [St.resumed, nodeBirth, hacc, Option.isSome_none, Bool.false_eq_true, if_false, hon,
+      List.singleton_append]
+    rw [devPhase_stale _ _ _ _ _ _ (epoch_succ_ne st.epoch)]
+    rw [devPhase_rebirth st.alias _ 0 0 st.devs rfl]
+    simp [dbirthSeq]
+  rw [step, resolveParked_eq decs true st pk hpk, hq]
+  exact key
+
 
 end Srad.Cmd
